@@ -765,6 +765,9 @@ class TensorLib:
             offs.append(offs[-1] + t.shape[axis])
         sh = list(ts[0].shape)
         sh[axis] = _as_dim(offs[-1])
+        if z3.is_expr(sh[axis]) and len(ts) > 1:
+            # remember the order of the parts of this extent (z3 normalises sums): the split rule R4 follows the block boundaries
+            eng.__dict__.setdefault("extent_parts", {})[sh[axis].get_id()] = [t.shape[axis] if z3.is_expr(t.shape[axis]) else z3.IntVal(t.shape[axis]) for t in ts]
         kinds = {t.kind for t in ts}
         kind = ts[0].kind if len(kinds) == 1 else "real"
 
